@@ -122,18 +122,21 @@ pub fn builtin_function<NumericTypes: EvalexprNumericTypes>(
             let mut min_int = NumericTypes::Int::MAX;
             let mut min_float = NumericTypes::Float::MAX;
             debug_assert!(min_float.is_infinite());
+            // The initial value of `min_int` is not an argument and must never be returned
+            let mut has_int = false;
 
             for argument in arguments {
                 if let Value::Float(float) = argument {
                     min_float = min_float.min(&float);
                 } else if let Value::Int(int) = argument {
+                    has_int = true;
                     min_int = min_int.min(int);
                 } else {
                     return Err(EvalexprError::expected_number(argument));
                 }
             }
 
-            if (NumericTypes::int_as_float(&min_int)) < min_float {
+            if has_int && (NumericTypes::int_as_float(&min_int)) < min_float {
                 Ok(Value::Int(min_int))
             } else {
                 Ok(Value::Float(min_float))
@@ -148,18 +151,21 @@ pub fn builtin_function<NumericTypes: EvalexprNumericTypes>(
             let mut max_int = NumericTypes::Int::MIN;
             let mut max_float = NumericTypes::Float::MIN;
             debug_assert!(max_float.is_infinite());
+            // The initial value of `max_int` is not an argument and must never be returned
+            let mut has_int = false;
 
             for argument in arguments {
                 if let Value::Float(float) = argument {
                     max_float = max_float.max(&float);
                 } else if let Value::Int(int) = argument {
+                    has_int = true;
                     max_int = max_int.max(int);
                 } else {
                     return Err(EvalexprError::expected_number(argument));
                 }
             }
 
-            if (NumericTypes::int_as_float(&max_int)) > max_float {
+            if has_int && (NumericTypes::int_as_float(&max_int)) > max_float {
                 Ok(Value::Int(max_int))
             } else {
                 Ok(Value::Float(max_float))
